@@ -238,10 +238,7 @@ func c14Iso(arg string) string { return `(s:make-validator "c14iso" ` + arg + ")
 func c14TypeSrc(t string) string { return "s:" + t }
 
 func (c *c14Ctx) attrType(t string, v *c14x.Value, expr string) *c14Culprit {
-	model := c14x.WrongType
-	if c14x.HasType(t, v) {
-		model = c14x.Accept
-	}
+	model := c14x.TypeOut(t, v)
 	src := c14Iso(c14TypeSrc(t))
 	if dir, got := c.mism(src, model, expr); dir != "" {
 		return &c14Culprit{op: "type-" + t, v: v, dir: dir, want: model, got: got, src: src, expr: expr}
@@ -257,7 +254,7 @@ func (c *c14Ctx) attrSchema(s *c14x.Schema, v *c14x.Value, expr string) *c14Culp
 	if cu := c.attrType(typ, v, expr); cu != nil {
 		return cu
 	}
-	if !c14x.HasType(typ, v) {
+	if c14x.TypeOut(typ, v)&c14x.Accept == 0 {
 		return nil
 	}
 	if typ == "tagged-value" {
@@ -266,7 +263,7 @@ func (c *c14Ctx) attrSchema(s *c14x.Schema, v *c14x.Value, expr string) *c14Culp
 			if cu := c.attrType(sub, v, expr); cu != nil {
 				return cu
 			}
-			if !c14x.HasType(sub, v) {
+			if c14x.TypeOut(sub, v)&c14x.Accept == 0 {
 				return nil
 			}
 		}
